@@ -36,6 +36,9 @@ mod type_entry;
 mod util;
 mod validate;
 mod value;
+#[cfg(typify_verif)]
+#[doc(hidden)]
+pub mod verif;
 
 #[allow(missing_docs)]
 #[derive(Error, Debug)]
@@ -571,6 +574,8 @@ impl TypeSpacePatch {
 impl TypeSpace {
     /// Create a new TypeSpace with custom settings
     pub fn new(settings: &TypeSpaceSettings) -> Self {
+        #[cfg(typify_verif)]
+        verif::event("new", || serde_json::json!(format!("{:?}", settings)));
         let mut cache = SchemaCache::default();
 
         settings.convert.iter().for_each(
@@ -858,6 +863,8 @@ impl TypeSpace {
 
     /// All code for processed types.
     pub fn to_stream(&self) -> TokenStream {
+        #[cfg(typify_verif)]
+        verif::event("stream", || serde_json::json!(self.id_to_entry.len()));
         let mut output = OutputSpace::default();
 
         // Add the error type we use for conversions; it's fine if this is
@@ -923,6 +930,22 @@ impl TypeSpace {
     /// two conflicting types of the same name), and deduplicates various
     /// flavors of built-in types.
     fn assign_type(&mut self, ty: TypeEntry) -> TypeId {
+        #[cfg(typify_verif)]
+        verif::event("assign", || {
+            let (how, same) = match (&ty.details, ty.name()) {
+                (TypeEntryDetails::Reference(_), _) => ("ref", true),
+                (_, Some(name)) => match self.name_to_id.get(name) {
+                    Some(id) => (
+                        "name_reuse",
+                        self.id_to_entry.get(id).map(|e| e.details == ty.details) == Some(true),
+                    ),
+                    None => ("new_named", true),
+                },
+                (details, None) if self.type_to_id.contains_key(details) => ("struct_reuse", true),
+                _ => ("new_unnamed", true),
+            };
+            serde_json::json!({ "how": how, "name": ty.name(), "same": same })
+        });
         if let TypeEntryDetails::Reference(type_id) = ty.details {
             type_id
         } else if let Some(name) = ty.name() {
